@@ -44,6 +44,7 @@ func main() {
 	if *replay != "" {
 		os.Exit(doReplay(*replay))
 	}
+	oracleProp = *prop
 	streams, ok := props[*prop]
 	if !ok {
 		fmt.Fprintln(os.Stderr, "unknown property", *prop)
